@@ -213,6 +213,30 @@ func (c *Ctl) Choose(n int, label string) int {
 	return choice
 }
 
+// DrainOne releases the first parked seam in canonical order (no decision
+// point recorded) and waits for quiescence. It reports whether one was parked.
+func (c *Ctl) DrainOne() bool {
+	synctest.Wait()
+	c.mu.Lock()
+	if len(c.pending) == 0 {
+		c.mu.Unlock()
+		return false
+	}
+	sort.SliceStable(c.pending, func(i, j int) bool {
+		if c.pending[i].label != c.pending[j].label {
+			return c.pending[i].label < c.pending[j].label
+		}
+		return c.pending[i].seq < c.pending[j].seq
+	})
+	p := c.pending[0]
+	c.pending = c.pending[1:]
+	c.Trace = append(c.Trace, "("+p.label+")")
+	c.mu.Unlock()
+	close(p.ch)
+	synctest.Wait()
+	return true
+}
+
 // ReleaseAll releases every parked seam (teardown).
 func (c *Ctl) ReleaseAll() {
 	c.mu.Lock()
